@@ -11,4 +11,12 @@ m=json.load(open('/verif/MANIFEST.json'))
 ids=[c['property_id'] for c in m['checks']]+[n['property_id'] for n in m.get('not_applicable',[])]
 allp=[json.loads(l)['id'] for l in open('/verif/properties.jsonl')]
 print('unaccounted:', [p for p in allp if p not in ids])
+import subprocess
+log=subprocess.check_output(['git','-C','/repo','log','--format=%h %s']).decode().strip().split('\n')
+hooks=set(m['hooks']['source_commits'])
+odd=[l for l in log[:-1] if not (l.split(' ',1)[1].startswith('fix:') or l.split(' ',1)[0] in hooks)]
+print('repo commits that are neither a listed hook commit nor a fix:', odd)
+fixed=[json.loads(l) for l in open('/verif/known-findings.jsonl') if l.strip()]
+ids=set(l.split(' ',1)[0] for l in log)
+print('known-findings entries naming an unknown commit:', [f.get('commit') for f in fixed if f.get('fixed') and f.get('commit') not in ids and not any(i.startswith(f.get('commit','x')) or f.get('commit','x').startswith(i) for i in ids)])
 PY
